@@ -24,4 +24,5 @@ for c in "$@"; do
   if echo "$O" | grep -q VIOLATION; then RES="$RES $c:caught"; else RES="$RES $c:missed"; fi
 done
 git -C /repo checkout -- .
+for c in "$@"; do ./check $c --tier quick >/dev/null 2>&1 || echo "WARNING: $c does not pass on the restored tree"; done   # rewrite evidence from the clean tree
 echo "tests_with_change: $T | demo_with_exit=$DW demo_without_exit=$DO | $RES" | tee $OUT/confirm.txt
